@@ -575,7 +575,21 @@ pub fn run_prog_case(case: &ProgCase, progress: bool) -> ProgOutcome {
     if !out.fancy {
         return out;
     }
-    let (shadow, res) = Shadow::new(true, progress);
+    let (mut shadow, res) = Shadow::new(true, progress);
+    // commit brackets: marker groups named zbN / zeN around constructs that commit
+    let names: Vec<Option<&str>> = re.capture_names().collect();
+    let mut brackets = Vec::new();
+    for (gb, n) in names.iter().enumerate() {
+        if let Some(id) = n.and_then(|n| n.strip_prefix("zb")).and_then(|d| d.parse::<usize>().ok()) {
+            let want = format!("ze{}", id);
+            if let Some(ge) = names.iter().position(|m| *m == Some(want.as_str())) {
+                brackets.push((id, gb, ge));
+            }
+        }
+    }
+    if !brackets.is_empty() {
+        shadow.set_brackets(brackets);
+    }
     verif::set_observer(Some(Box::new(shadow)));
     verif::reset_run_ordinal();
     verif::record_run_stats(true);
@@ -744,6 +758,7 @@ struct JobOut {
     prog_fault_fired: u64,
     prog_nontrivial_hashes: Vec<u64>,
     known_leak_hits: u64,
+    bracketed_patterns: u64,
     shadow: ShadowStats,
     sample: Option<Value>,
 }
@@ -761,6 +776,7 @@ fn add_shadow(a: &mut ShadowStats, b: &ShadowStats) {
     a.neglook_unwinds_checked += b.neglook_unwinds_checked;
     a.neglook_group_checks += b.neglook_group_checks;
     a.capture_reads_checked += b.capture_reads_checked;
+    a.commit_brackets_checked += b.commit_brackets_checked;
     a.epsilon_guard_fired += b.epsilon_guard_fired;
     a.max_depth = a.max_depth.max(b.max_depth);
     a.max_aux = a.max_aux.max(b.max_aux);
@@ -768,6 +784,22 @@ fn add_shadow(a: &mut ShadowStats, b: &ShadowStats) {
     a.model_capped += b.model_capped;
     a.progress_capped += b.progress_capped;
 }
+
+/// Hand-written patterns with commit brackets (marker groups zbN / zeN around a construct that
+/// commits): nested and tail-position atomic groups, possessive loops, look-arounds whose bodies
+/// leave alternatives behind, committing constructs inside loops.
+const BRACKET_CORPUS: &[&str] = &[
+    r"(?<zb0>)(?>(?>(?:a|ab)(?!z)))(?<ze0>)c",
+    r"^(?<zb0>)(?>x(?>(a|aa)\2))(?<ze0>)b",
+    r"(?<zb0>)(?:a|ab)++(?<ze0>)c",
+    r"(?<zb0>)(?!(a|ab)c)(?<ze0>)\w+",
+    r"(?:(?<zb0>)(?>b*?)(?<ze0>)c)+",
+    r"x?(?<zb0>)(?!(a|b)+c)(?<ze0>)\w",
+    r"^(?<zb0>)(?>x(?:(a|ab)(?!z))?+)(?<ze0>)c",
+    r"(?<zb0>)(?>(?<zb1>)(?>a+?|b)(?<ze1>)(?:b|bc)?)(?<ze0>)c\b",
+    r"(?<zb0>)(?<!a|-)(?<ze0>)(?<zb1>)(?>\w*?\d)(?<ze1>)-",
+    r"(?:(?<zb0>)(?!(?:a|b)+?c)(?<ze0>)[ab]){2,}(?!a)",
+];
 
 /// One job = one seed: a block of histories and a block of shadowed VM runs.
 fn job(seed: u64, i: u64, thorough: bool, leak_listed: bool) -> (JobOut, Option<Violation>) {
@@ -816,7 +848,25 @@ fn job(seed: u64, i: u64, thorough: bool, leak_listed: bool) -> (JobOut, Option<
             }
             (pattern, Some(ast))
         };
-        for _ in 0..4 {
+        // variants: the pattern itself and, for half of the generated ones that have a construct
+        // that commits, a copy with commit brackets (marker groups) around some of them
+        let mut variants: Vec<(String, usize)> = vec![(pattern.clone(), 4)];
+        if let Some(ast) = &_ast {
+            if rng.chance(1, 2) {
+                let mut ids = 0;
+                let marked = ast.with_commit_brackets(&mut rng, 2, &mut ids);
+                if ids > 0 {
+                    variants.push((marked.render(), 3));
+                }
+            }
+        } else {
+            variants.push((BRACKET_CORPUS[(i as usize / gen::CORPUS.len()) % BRACKET_CORPUS.len()].to_string(), 3));
+        }
+        for (pattern, n_texts) in variants {
+        if pattern.contains("(?<zb") {
+            out.bracketed_patterns += 1;
+        }
+        for _ in 0..n_texts {
             let text = gen::gen_text(&mut rng, 8);
             let bounds = gen::boundaries(&text);
             let pos = if rng.chance(3, 4) { 0 } else { *rng.pick(&bounds) };
@@ -873,6 +923,7 @@ fn job(seed: u64, i: u64, thorough: bool, leak_listed: bool) -> (JobOut, Option<
                     }
                 }
             }
+        }
         }
     }
     (out, None)
@@ -1071,6 +1122,7 @@ pub fn run(opts: &Opts) -> i32 {
         agg.prog_faulted += r.prog_faulted;
         agg.prog_fault_fired += r.prog_fault_fired;
         agg.known_leak_hits += r.known_leak_hits;
+        agg.bracketed_patterns += r.bracketed_patterns;
         add_shadow(&mut agg.shadow, &r.shadow);
         hist_nt.extend(r.hist_nontrivial_hashes.iter());
         prog_nt.extend(r.prog_nontrivial_hashes.iter());
@@ -1129,6 +1181,8 @@ pub fn run(opts: &Opts) -> i32 {
             "negative_lookaround_unwinds_checked": agg.shadow.neglook_unwinds_checked,
             "results_checked_for_captures_surviving_a_negative_lookaround": agg.shadow.neglook_group_checks,
             "backreference_and_condition_reads_checked_against_the_state": agg.shadow.capture_reads_checked,
+            "patterns_with_commit_brackets_around_atomic_possessive_or_lookaround_constructs": agg.bracketed_patterns,
+            "constructs_left_with_exactly_the_alternatives_alive_at_entry_checked_at_the_end_marker": agg.shadow.commit_brackets_checked,
             "vm_max_branch_depth": agg.shadow.max_depth,
             "vm_max_aux_depth": agg.shadow.max_aux,
             "vm_runs_where_model_was_capped_by_depth": agg.shadow.model_capped,
